@@ -366,6 +366,9 @@ class Prov:
         if k in ("copy", "move"):
             return self.place(o["place"], depth, seen, at)
         if k == "const":
+            if "named" in o and not o.get("promoted") and "variant" in o and "enum" in o:
+                # `const DIR_INIT: SectorInit = SectorInit::Dir;` - a name for a variant is that variant
+                return "const:%s::%s" % (o["enum"].split("::")[-1], o["variant"])
             if "named" in o and not o.get("promoted"):
                 return "const:%s" % o["named"].split("::")[-1]
             if "val" in o:
